@@ -243,32 +243,42 @@ def decimalRat (w : String) : Option (Bool × Nat × Nat) :=
     if e ≥ 0 then (if e ≤ 5000 then some (neg, n * 10 ^ e.toNat, 1) else none)
     else (if e ≥ -5000 then some (neg, n, 10 ^ (-e).toNat) else none)
 
-/-- `strconv.ParseFloat(w, bits)`: nearest value of the format (ties to even); ±Inf plus a range error on
-    overflow; "inf", "infinity", "nan" spellings.  Hexadecimal floats and `_` separators are not
-    modelled (reported as syntax errors; the generators do not produce them). -/
+/-- an optional sign: (negative, a sign was written, the rest) -/
+def signSplit (cs : List Char) : Bool × Bool × List Char :=
+  match cs with
+  | '-' :: r => (true, true, r)
+  | '+' :: r => (false, true, r)
+  | r => (false, false, r)
+
+/-- the result for a numeral whose exact value is `± num/den`: the nearest value of the format (ties to even);
+    ±Inf together with a range error when that overflows -/
+def parseRounded (f : Fmt) (neg : Bool) (num den : Nat) : Res :=
+  match roundRat f neg num den with
+  | .inf s => ⟨.f64 (.inf s), .other⟩
+  | x => ⟨.f64 x, .ok⟩
+
+/-- `strconv.ParseFloat(w, bits)`: a decimal numeral is rounded to the nearest value of the format (`parseRounded`
+    of its exact rational value `decimalRat w`); numerals with absurd exponents (|e| > 5000, outside `decimalRat`)
+    overflow / underflow; "inf", "infinity", "nan" spellings; everything else is a syntax error.  Hexadecimal
+    floats and `_` separators are not modelled (reported as syntax errors; the generators do not produce them). -/
 def goParseFloat (bits : Nat) (w : String) : Res :=
   let f := if bits = 32 then f32 else f64
-  let cs := w.toList
-  let (neg, signed, body) := match cs with
-    | '-' :: r => (true, true, r)
-    | '+' :: r => (false, true, r)
-    | r => (false, false, r)
-  let lb := lower body
-  if lb = "inf".toList ∨ lb = "infinity".toList then ⟨.f64 (.inf neg), .ok⟩
-  else if lb = "nan".toList ∧ !signed then ⟨.f64 .nan, .ok⟩
-  else match decimalSyntax w with
-    | none => ⟨.f64 (.fin false 0 0), .other⟩
+  match decimalRat w with
+  | some (s, n, d) => parseRounded f s n d
+  | none =>
+    match decimalSyntax w with
     | some (neg, n, len, e) =>
+      -- 10^e ≤ value < 10^(len+e), |e| > 5000
       if n = 0 then ⟨.f64 (.fin neg 0 0), .ok⟩
-      else
-        -- 10^e ≤ value < 10^(len+e)
-        if e > 400 then ⟨.f64 (.inf neg), .other⟩
-        else if (len : Int) + e < -400 then ⟨.f64 (.fin neg 0 0), .ok⟩
-        else
-          let x := if e ≥ 0 then roundRat f neg (n * 10 ^ e.toNat) 1 else roundRat f neg n (10 ^ (-e).toNat)
-          match x with
-          | .inf s => ⟨.f64 (.inf s), .other⟩
-          | x => ⟨.f64 x, .ok⟩
+      else if e > 0 then ⟨.f64 (.inf neg), .other⟩
+      else if (len : Int) + e < -400 then ⟨.f64 (.fin neg 0 0), .ok⟩
+      else parseRounded f neg n (10 ^ (-e).toNat)
+    | none =>
+      let t := signSplit w.toList
+      let lb := lower t.2.2
+      if lb = "inf".toList ∨ lb = "infinity".toList then ⟨.f64 (.inf t.1), .ok⟩
+      else if lb = "nan".toList ∧ !t.2.1 then ⟨.f64 .nan, .ok⟩
+      else ⟨.f64 (.fin false 0 0), .other⟩
 
 def goParseBool (w : String) : Res :=
   if w = "1" ∨ w = "t" ∨ w = "T" ∨ w = "TRUE" ∨ w = "true" ∨ w = "True" then ⟨.b true, .ok⟩
